@@ -191,6 +191,14 @@ Theorem c19_null_base_no_flips : forall di pc c os r address rs m b,
 Proof. exact null_base_no_flips. Qed.
 Print Assumptions c19_null_base_no_flips.
 
+(* a call / jmp through a register that reads 0: recognised as a null pointer, nothing reported *)
+Theorem c19_null_target_no_flips : forall di pc c os r address rs id,
+  di_ip di = IpkReg id -> get_register pc id = Some 0 ->
+  (di_memsize di = true -> explicit_accesses di pc <> None) ->
+  pipeline (analyze_dinstr di) c os r address (Some pc) rs = [].
+Proof. exact null_target_no_flips. Qed.
+Print Assumptions c19_null_target_no_flips.
+
 (* registers examined by the register pass are base / index registers of the instruction's memory operands *)
 Theorem c19_instr_regs_sound : forall ops id,
   In id (instr_regs ops) -> exists m, In m ops /\ (mo_base m = Some id \/ mo_index m = Some id).
@@ -208,6 +216,36 @@ Theorem c19_memop_tables : forall rg,
   (forall k, k <> 0 -> k <> 1 -> k <> 8 -> mk_memop (g_memop_of_access k) = Undetermined).
 Proof. exact memop_tables. Qed.
 Print Assumptions c19_memop_tables.
+
+(* THE PROPERTY END TO END, in plain arithmetic on the stream records, for an arbitrary instruction analysis:
+   every flip reported for a dump with a MemoryInfoList (base, size, protection records, any u64 values, any
+   overlaps) is [examined value] xor 2^j with j in the platform's range, is a u64, and is 0 or lies inside
+   [base, base+size) of a record whose protection permits the crashing kind of access *)
+Theorem c19_pipeline_flip_info : forall analysis c os r address pc l f,
+  u64_recs l -> 0 <= address < two64 ->
+  (forall x id v, pc = Some x -> get_register x id = Some v -> 0 <= v < two64) ->
+  (forall x oa ai, analysis x = Some oa -> (exists a, oa_addresses oa = Some a /\ In ai a) -> 0 <= ai_addr ai < two64) ->
+  In f (pipeline analysis c os r address pc (regions_of_info l)) ->
+  exists a j, examined_by analysis c os r address pc f a /\
+              br_lo (pipeline_br analysis c os r address pc) <= j < br_hi (pipeline_br analysis c os r address pc) /\
+              f_addr f = Z.lxor a (2 ^ j) /\ 0 <= f_addr f < two64 /\
+              (f_addr f = 0 \/
+               exists base size prot, In (base, size, prot) l /\ size <> 0 /\ base + size < two64 /\
+                                      base <= f_addr f < base + size /\ info_allows (memop_of_reason r) prot = true).
+Proof. exact pipeline_flip_info. Qed.
+Print Assumptions c19_pipeline_flip_info.
+
+(* ... and with Linux maps (start, end, rwx) lines *)
+Theorem c19_pipeline_flip_maps : forall analysis c os r address pc l f,
+  u64_recs l ->
+  In f (pipeline analysis c os r address pc (regions_of_maps l)) ->
+  exists a j, examined_by analysis c os r address pc f a /\
+              br_lo (pipeline_br analysis c os r address pc) <= j < br_hi (pipeline_br analysis c os r address pc) /\
+              f_addr f = Z.lxor a (2 ^ j) /\
+              (f_addr f = 0 \/
+               exists lo hi p, In (lo, hi, p) l /\ lo <= f_addr f <= hi /\ maps_allows (memop_of_reason r) p = true).
+Proof. exact pipeline_flip_maps. Qed.
+Print Assumptions c19_pipeline_flip_maps.
 
 (* ---- non-vacuity ---- *)
 Example c19_nonvacuous_flip :
@@ -227,7 +265,8 @@ Proof. vm_compute. reflexivity. Qed.
    reported; the same instruction with rbx = 0x80400 (one bit from the mapped 0x80000): the register pass
    reports the flip with source register rbx (id 3) *)
 Definition nv_di := {| di_lea := false; di_memsize := true;
-                       di_ops := [{| mo_base := Some 3; mo_index := None; mo_scale := None; mo_disp := Some 8 |}] |}.
+                       di_ops := [{| mo_base := Some 3; mo_index := None; mo_scale := None; mo_disp := Some 8 |}];
+                       di_implicit := ImpNone; di_ip := IpkNoUpdate |}.
 Definition nv_pc (rbx : Z) := {| pc_size := 8; pc_regs := [(0, 5); (3, rbx); (16, 4096)] |}.
 Example c19_nonvacuous_null_base :
   let rs := [region_of_info 524288 16 4] in
